@@ -96,7 +96,7 @@ SP_DECL = {
     # a second AttributeConsumingService that requests nothing
     'second-acs-empty': (('givenName', True, ()), ('mail', False, ())),
 }
-BARE_DESCR = ('<md:SPSSODescriptor protocolSupportEnumeration="urn:oasis:names:tc:SAML:1.1:protocol">'
+BARE_DESCR = ('<md:SPSSODescriptor protocolSupportEnumeration="urn:oasis:names:tc:SAML:2.0:protocol">'
               '<md:AssertionConsumerService Binding="urn:oasis:names:tc:SAML:1.0:profiles:browser-post" '
               'Location="https://spx.example/acs11" index="0"/></md:SPSSODescriptor>')
 SP_CATS = {'none': (), 'rs': (RS,), 'coco': (COCO,), 'swamid-half': (SWAMID_RE,), 'swamid-full': (SWAMID_RE, SWAMID_HEI),
@@ -285,7 +285,7 @@ def _cells(thorough):
         for k, late in LATE.items():
             for v in late:
                 others = [x for x in sorted(dims) if x != k]
-                for vals in itertools.product(*[core[x] if x != 'fail' else ('absent',) for x in others]):
+                for vals in itertools.product(*[(core[x] if x != 'entry' else ('default', 'per-sp')) if x != 'fail' else ('absent',) for x in others]):
                     c = _norm(dict(zip(others, vals), **{k: v}))
                     t = tuple(sorted(c.items()))
                     if t not in seen:
@@ -327,6 +327,8 @@ def evaluate(c):
     identity = IDENTITIES[c['ident']]
     allowed = permitted(identity, c['restr'], c['cat'], c['decl'], c['cats'])
     for role in ('idp', 'aa', 'aa+query', 'idp@md'):
+        if role == 'idp@md' and c['entry'] != 'default':
+            continue            # (the rendered-metadata state is about the configuration context, one entry kind suffices)
         srv = server(c['entry'], c['restr'], c['cat'], c['fail'], c['decl'], c['cats'], role.split('+')[0])
         ident_copy = {k: (v if isinstance(v, str) else list(v)) for k, v in identity.items()}
         nid = saml.NameID(text='subject-1', format=saml.NAMEID_FORMAT_TRANSIENT)
